@@ -185,6 +185,16 @@ def _one_shot(body: List[ast.stmt], at: ast.AST) -> ast.stmt:
     return loop
 
 
+def _subst_expr(e: ast.AST, temps: Dict[str, ast.AST]) -> ast.AST:
+    class S(ast.NodeTransformer):
+        def visit_Name(self, n: ast.Name) -> ast.AST:  # noqa: N802
+            if isinstance(n.ctx, ast.Load) and n.id in temps:
+                return clone(temps[n.id])
+            return n
+
+    return S().visit(e)
+
+
 def _call_in(v: Optional[ast.AST]) -> Optional[ast.Call]:
     if isinstance(v, ast.Await):
         v = v.value
@@ -198,9 +208,74 @@ class _Flattener:
 
     def block(self, stmts: List[ast.stmt], stack: Tuple[str, ...], depth: int) -> List[ast.stmt]:
         out: List[ast.stmt] = []
-        for s in stmts:
+        i = 0
+        while i < len(stmts):
+            s = stmts[i]
+            nxt = stmts[i + 1] if i + 1 < len(stmts) else None
+            fused = self.fuse_optional_result(s, nxt, stack, depth)
+            if fused is not None:
+                out.extend(fused)
+                i += 2
+                continue
             out.extend(self.stmt(s, stack, depth))
+            i += 1
         return out
+
+    def fuse_optional_result(self, s: ast.stmt, nxt: Optional[ast.stmt], stack: Tuple[str, ...], depth: int) -> Optional[List[ast.stmt]]:
+        """`t = helper(...)` directly followed by `if t is not None: return t` (or `if t: return t`): the helper's `return None` means
+        "go on", any other return is the caller's return - expressed directly, so that no infeasible path (helper said stop, caller goes
+        on) appears in the flattened control flow."""
+        if depth <= 0 or nxt is None or not (isinstance(s, ast.Assign) and len(s.targets) == 1 and isinstance(s.targets[0], ast.Name)):
+            return None
+        call = _call_in(s.value)
+        t = s.targets[0].id
+        if call is None or not (isinstance(nxt, ast.If) and not nxt.orelse and len(nxt.body) == 1 and isinstance(nxt.body[0], ast.Return)
+                                and isinstance(nxt.body[0].value, ast.Name) and nxt.body[0].value.id == t):
+            return None
+        tst = nxt.test
+        is_test = (isinstance(tst, ast.Name) and tst.id == t) or (
+            isinstance(tst, ast.Compare) and len(tst.ops) == 1 and isinstance(tst.ops[0], ast.IsNot) and isinstance(tst.left, ast.Name) and tst.left.id == t
+            and isinstance(tst.comparators[0], ast.Constant) and tst.comparators[0].value is None)
+        if not is_test:
+            return None
+        got = _helper_of(call, self.fn, self.mod)
+        if got is None or not _inlinable(got[0], stack):
+            return None
+        h, bound = got
+        rets = [r for x in h.node.body for r in ast.walk(x) if isinstance(r, ast.Return)]
+        if not all(r.value is None or (isinstance(r.value, ast.Constant) and r.value.value is None) or isinstance(r.value, (ast.Call, ast.Tuple, ast.Dict, ast.List, ast.JoinedStr))
+                   for r in rets):
+            return None  # a return whose None-ness is not evident
+        self.count += 1
+        tag = f"{h.name.strip('_')}{self.count}"
+        b = _bind(h, call, bound, tag)
+        if b is None:
+            return None
+        subst, pre = b
+        body = self.block(_body_of(h, subst, tag), stack + (h.fq,), depth - 1)
+
+        def conv(stmts: List[ast.stmt]) -> List[ast.stmt]:
+            out: List[ast.stmt] = []
+            for x in stmts:
+                if isinstance(x, ast.Return):
+                    if x.value is None or (isinstance(x.value, ast.Constant) and x.value.value is None):
+                        out.append(ast.copy_location(ast.Break(), x))
+                    else:
+                        out.append(x)
+                    continue
+                if isinstance(x, (ast.FunctionDef, ast.AsyncFunctionDef, ast.ClassDef)):
+                    out.append(x)
+                    continue
+                for fld in ("body", "orelse", "finalbody"):
+                    sub = getattr(x, fld, None)
+                    if isinstance(sub, list) and sub and isinstance(sub[0], ast.stmt):
+                        setattr(x, fld, conv(sub))
+                for hd in getattr(x, "handlers", []):
+                    hd.body = conv(hd.body)
+                out.append(x)
+            return out
+
+        return pre + [_one_shot(conv(body), s)]
 
     def stmt(self, s: ast.stmt, stack: Tuple[str, ...], depth: int) -> List[ast.stmt]:
         if isinstance(s, (ast.FunctionDef, ast.AsyncFunctionDef, ast.ClassDef)):
@@ -255,6 +330,15 @@ class _Flattener:
                     return c
                 h, bound = got
                 body = [x for x in h.node.body if not (isinstance(x, ast.Expr) and isinstance(x.value, ast.Constant))]
+                # straight-line helpers: `t1 = e1; t2 = e2; return e` are folded into one expression
+                if len(body) > 1 and isinstance(body[-1], ast.Return) and body[-1].value is not None and all(
+                        isinstance(x, (ast.Assign, ast.AnnAssign)) and isinstance(x.targets[0] if isinstance(x, ast.Assign) else x.target, ast.Name) and x.value is not None
+                        for x in body[:-1]):
+                    temps: Dict[str, ast.AST] = {}
+                    for x in body[:-1]:
+                        nm = (x.targets[0] if isinstance(x, ast.Assign) else x.target).id  # type: ignore[union-attr]
+                        temps[nm] = _subst_expr(clone(x.value), temps)
+                    body = [ast.Return(value=_subst_expr(clone(body[-1].value), temps))]
                 if len(body) != 1 or not isinstance(body[0], ast.Return) or body[0].value is None or h.fq in stack or h is me.fn:
                     return c
                 if isinstance(h.node, ast.AsyncFunctionDef):
